@@ -20,49 +20,6 @@ from mashumaro.config import BaseConfig
 from mashumaro.dialect import Dialect
 
 
-class NT(NamedTuple):
-    x: int
-    y: int = 2
-
-
-@dataclass
-class Plain:
-    a: Optional[int] = None
-    b: int = field(default=1, metadata={"alias": "bb"})
-    nt: NT = NT(1, 2)
-    l: List[int] = field(default_factory=list)
-    dt: datetime.datetime = datetime.datetime(2020, 1, 2, 3, 4, 5)
-    by: bytes = b"xy"
-    s: str = "q"
-    m: Dict[str, int] = field(default_factory=dict)
-
-
-@dataclass
-class Sub:
-    n: Optional[str] = None
-    k: int = field(default=3, metadata={"alias": "kk"})
-    d: datetime.date = datetime.date(2021, 5, 6)
-
-
-@dataclass
-class Nested:
-    sub: Sub = field(default_factory=Sub)
-    subs: List[Sub] = field(default_factory=list)
-    p: NT = NT(5, 6)
-    o: Optional[int] = None
-
-
-@dataclass
-class Mixin(DataClassDictMixin):
-    a: Optional[int] = None
-    b: int = field(default=1, metadata={"alias": "bb"})
-    nt: NT = NT(1, 2)
-    t: datetime.time = datetime.time(7, 8, 9)
-
-    class Config(BaseConfig):
-        serialize_by_alias = True
-
-
 NOCOPY = {"empty": (), "list": (list,), "listdict": (list, dict)}
 
 
@@ -80,6 +37,62 @@ def make_dialect(opts):
             str: {"serialize": str.swapcase, "deserialize": str.swapcase},
         }
     return type("D", (Dialect,), ns)
+
+
+CFG_DIALECT = make_dialect(CFG_OPTS) if CFG_OPTS is not None else None
+
+
+class Cfg(BaseConfig):
+    dialect = CFG_DIALECT
+
+
+class NT(NamedTuple):
+    x: int
+    y: int = 2
+
+
+@dataclass
+class Plain:
+    a: Optional[int] = None
+    b: int = field(default=1, metadata={"alias": "bb"})
+    nt: NT = NT(1, 2)
+    l: List[int] = field(default_factory=list)
+    dt: datetime.datetime = datetime.datetime(2020, 1, 2, 3, 4, 5)
+    by: bytes = b"xy"
+    s: str = "q"
+    m: Dict[str, int] = field(default_factory=dict)
+    Config = Cfg
+
+
+@dataclass
+class Sub:
+    n: Optional[str] = None
+    k: int = field(default=3, metadata={"alias": "kk"})
+    d: datetime.date = datetime.date(2021, 5, 6)
+    Config = Cfg
+
+
+@dataclass
+class Nested:
+    sub: Sub = field(default_factory=Sub)
+    subs: List[Sub] = field(default_factory=list)
+    p: NT = NT(5, 6)
+    o: Optional[int] = None
+    Config = Cfg
+
+
+@dataclass
+class Mixin(DataClassDictMixin):
+    a: Optional[int] = None
+    b: int = field(default=1, metadata={"alias": "bb"})
+    nt: NT = NT(1, 2)
+    t: datetime.time = datetime.time(7, 8, 9)
+
+    class Config(BaseConfig):
+        serialize_by_alias = True
+        dialect = CFG_DIALECT
+
+
 '''
 
 FORMATS = ["basic", "json", "orjson", "yaml", "msgpack", "toml"]
@@ -107,9 +120,14 @@ def codecs():
     }
 
 
-def new_module():
-    mod = types.ModuleType(f"c13_codec_{id(object())}")
+_n = itertools.count()
+
+
+def new_module(cfg_opts=None):
+    """cfg_opts None: the classes as written.  Otherwise the twin: every class has Config.dialect = make_dialect(cfg_opts)."""
+    mod = types.ModuleType(f"c13_codec_{next(_n)}")
     sys.modules[mod.__name__] = mod
+    mod.__dict__["CFG_OPTS"] = cfg_opts
     exec(CODEC_SRC, mod.__dict__)
     return mod
 
@@ -125,6 +143,19 @@ def norm(doc, drop_none=False):
     if isinstance(doc, (datetime.datetime, datetime.date, datetime.time)):
         return doc.isoformat()
     return doc
+
+
+def leaf_types(doc, path=()):
+    out = {}
+    if isinstance(doc, dict):
+        for k, v in doc.items():
+            out.update(leaf_types(v, path + (k,)))
+    elif isinstance(doc, (list, tuple)):
+        for i, v in enumerate(doc):
+            out.update(leaf_types(v, path + (i,)))
+    else:
+        out[path] = type(doc).__name__
+    return out
 
 
 def has_none(doc):
@@ -198,6 +229,19 @@ def check_one(mod, fmt: str, opts: dict, shape: str, expr: str):
         basic_back = canon(BD(T, default_dialect=D).decode(norm_copy(basic_doc)), True)
     except Exception as e:  # noqa: BLE001
         return {"stage": "basic", "observed": f"{type(e).__name__}: {e}", "expected": "a basic document"}
+    if fmt == "basic" and shape != "Mixin":      # Mixin's own Config sets an option: Config beats default_dialect but not Config.dialect
+        # independent reading of "default_dialect=D": the twin classes whose Config.dialect is D, no codec dialect
+        tw = new_module(opts)
+        try:
+            tns = tw.__dict__
+            try:
+                twin_doc = BE(tns[shape]).encode(eval(expr, tns))
+            except Exception as e:  # noqa: BLE001
+                twin_doc = f"{type(e).__name__}: {e}"
+        finally:
+            sys.modules.pop(tw.__name__, None)
+        if norm(basic_doc) != (norm(twin_doc) if not isinstance(twin_doc, str) else twin_doc):
+            return {"stage": "basic-vs-config-dialect", "observed": norm(basic_doc), "expected": norm(twin_doc) if not isinstance(twin_doc, str) else twin_doc}
     if fmt == "toml" and opts.get("omit_none") is False and has_none(basic_doc):
         return "excluded:toml-cannot-represent-None"
     E, Dc, parse = C[fmt]
@@ -209,6 +253,15 @@ def check_one(mod, fmt: str, opts: dict, shape: str, expr: str):
         return {"stage": "encode", "observed": f"{type(e).__name__}: {e}", "expected": expected}
     if got != expected:
         return {"stage": "encode", "observed": got, "expected": expected}
+    if fmt in ("msgpack", "toml") and not opts.get("strategy"):
+        # "on top of the format's own requirements": where the format carries a type natively without a dialect
+        # (bytes in MessagePack, datetime/date/time in TOML) it still does with one that does not mention that type
+        plain = leaf_types(parse(E(T).encode(eval(expr, ns))))
+        withd = leaf_types(parse(wire))
+        diff = {k: (withd[k], plain[k]) for k in withd if k in plain and withd[k] != plain[k]}
+        if diff:
+            return {"stage": "format-native-types", "observed": {str(k): v[0] for k, v in diff.items()},
+                    "expected": {str(k): v[1] for k, v in diff.items()}}
     try:
         back = canon(Dc(T, default_dialect=D).decode(wire), True)
     except Exception as e:  # noqa: BLE001
